@@ -9,4 +9,8 @@ TEXT = {
   "level_text": "randomized exploration of upstream write/flush/close histories from 1-4 goroutines against a scripted in-memory broker; every history is judged by a ledger oracle (multiset equality after alias resolution, sequence numbers, close totals, hook ledgers). Schedules are sampled (GOMAXPROCS 1/2/4/16, generated pacing), not enumerated.",
   "level_note": "trusts the in-memory link (loss-free FIFO), the library's own codecs inside the broker (judged by C11/C12) and the Go scheduler as a source of interleavings; a green run is evidence, each reported failure is a real history",
   "technique": "property-based testing (rapid) of concurrent operation histories with a reference-model/ledger oracle"},
+ "C20": {
+  "level_text": "randomized exploration of write/flush/state histories: for deterministic policies a single-goroutine history has exactly one legal chunk partition (modulo cancelled flushes), which a reference model predicts and the broker ledger must equal; concurrent histories are judged by barrier/conservation invariants; interval policies by a latency bound with generous slack",
+  "level_note": "trusts the in-memory link and the scripted broker; interval latency uses wall-clock with 2 s slack; schedules are sampled",
+  "technique": "model-based property testing (rapid): reference model of the flush policies vs. chunks observed at an in-memory broker"},
 }
